@@ -321,3 +321,477 @@ theorem equal_spec (hk : KeyOk hash eqv) (veq : V → V → Bool) (x y : Tbl K V
       | some w => rw [h2] at this; simpa using this
 
 end Elk.HashMap
+
+namespace Elk.HashMap
+variable {K V : Type} {hash : K → Nat} {eqv : K → K → Bool}
+
+/-! ### histories -/
+
+/-- pointwise relation between the live tables and a list of abstract values -/
+def RelG {α : Type} (P : Tbl K V → α → Prop) (objs : List (Tbl K V)) (A : List α) : Prop :=
+  objs.length = A.length ∧ ∀ (i : Nat) (t : Tbl K V) (a : α), objs[i]? = some t → A[i]? = some a → P t a
+
+theorem RelG.nil {α} (P : Tbl K V → α → Prop) : RelG P [] [] := ⟨rfl, by simp⟩
+
+theorem RelG.get {α} {P : Tbl K V → α → Prop} {objs A} (h : RelG P objs A) {i : Nat} {t : Tbl K V}
+    (ht : objs[i]? = some t) : ∃ a, A[i]? = some a ∧ P t a := by
+  have hlt : i < A.length := by rw [← h.1]; exact lt_of_getElem?' ht
+  exact ⟨A[i], List.getElem?_eq_getElem hlt, h.2 i t A[i] ht (List.getElem?_eq_getElem hlt)⟩
+
+theorem RelG.none {α} {P : Tbl K V → α → Prop} {objs A} (h : RelG P objs A) {i : Nat}
+    (ht : objs[i]? = none) : A[i]? = none := by
+  have : objs.length ≤ i := by simpa using ht
+  simp; rw [← h.1]; exact this
+
+theorem RelG.append {α} {P : Tbl K V → α → Prop} {objs A} (h : RelG P objs A) {t : Tbl K V} {a : α}
+    (hp : P t a) : RelG P (objs ++ [t]) (A ++ [a]) := by
+  refine ⟨by simp [h.1], ?_⟩
+  intro i t' a' ht ha
+  by_cases hi : i < objs.length
+  · rw [List.getElem?_append_left hi] at ht
+    rw [List.getElem?_append_left (by rw [← h.1]; exact hi)] at ha
+    exact h.2 i t' a' ht ha
+  · have : i = objs.length := by have := lt_of_getElem?' ht; simp at this; omega
+    subst this
+    simp at ht
+    rw [h.1] at ha; simp at ha
+    subst ht; subst ha; exact hp
+
+theorem RelG.set {α} {P : Tbl K V → α → Prop} {objs A} (h : RelG P objs A) (m : Nat) {t : Tbl K V} {a : α}
+    (hp : P t a) : RelG P (objs.set m t) (A.set m a) := by
+  refine ⟨by simp [h.1], ?_⟩
+  intro i t' a' ht ha
+  rw [List.getElem?_set] at ht ha
+  by_cases hm : m = i
+  · subst hm
+    by_cases hlt : m < objs.length
+    · have hlt' : m < A.length := by rw [← h.1]; exact hlt
+      simp [hlt] at ht; simp [hlt'] at ha
+      subst ht; subst ha; exact hp
+    · simp [hlt] at ht
+  · simp [hm] at ht ha
+    exact h.2 i t' a' ht ha
+
+theorem list_set_self {α} (l : List α) (o : Nat) (x : α) (h : l[o]? = some x) : l.set o x = l := by
+  apply List.ext_getElem?
+  intro i
+  rw [List.getElem?_set]
+  by_cases hi : o = i
+  · subst hi
+    have hlt := lt_of_getElem?' h
+    simp only [hlt, if_true]
+    exact h.symm
+  · simp [hi]
+
+/-- the next state of the history machine (a panicking or ill-formed operation changes nothing) -/
+def nextSt (hash : K → Nat) (eqv : K → K → Bool) (dflt : V) (objs : List (Tbl K V)) (op : Op K V) : List (Tbl K V) :=
+  match mstep hash eqv dflt objs op with
+  | some (.ok objs') => objs'
+  | _ => objs
+
+theorem mrun_eq_foldl (dflt : V) (ops : List (Op K V)) (objs : List (Tbl K V)) :
+    mrun hash eqv dflt objs ops = ops.foldl (nextSt hash eqv dflt) objs := by
+  induction ops generalizing objs with
+  | nil => rfl
+  | cons op ops ih =>
+    simp only [mrun, List.foldl_cons, nextSt]
+    cases h : mstep hash eqv dflt objs op with
+    | none => exact ih objs
+    | some r => cases r <;> exact ih _
+
+/-- abstract machine on finite maps (functions `K → Option V`); `union`/`inter` are set operations and
+are left to the membership machine below -/
+def astepM (eqv : K → K → Bool) (A : List (K → Option V)) : Op K V → List (K → Option V)
+  | .new _ => A ++ [(fun _ => none : K → Option V)]
+  | .set m k v => match A[m]? with
+    | some f => A.set m (fun q => if eqv k q then some v else f q)
+    | none => A
+  | .del m k => match A[m]? with
+    | some f => A.set m (fun q => if eqv k q then none else f q)
+    | none => A
+  | .setcap _ _ => A
+  | .grow _ _ => A
+  | .clone m => match A[m]? with
+    | some f => A ++ [f]
+    | none => A
+  | .clonecap m _ => match A[m]? with
+    | some f => A ++ [f]
+    | none => A
+  | .cat a b => match A[a]?, A[b]? with
+    | some f, some g => A ++ [fun q => match g q with | some w => some w | none => f q]
+    | _, _ => A
+  | .copy t s => match A[t]?, A[s]? with
+    | some f, some g => A.set t (fun q => match g q with | some w => some w | none => f q)
+    | _, _ => A
+  | .union _ _ => A
+  | .inter _ _ => A
+
+def Op.isMapOp : Op K V → Bool
+  | .union _ _ | .inter _ _ => false
+  | _ => true
+
+/-- abstract machine on finite sets (membership predicates): every operation -/
+def astepS (eqv : K → K → Bool) (A : List (K → Bool)) : Op K V → List (K → Bool)
+  | .new _ => A ++ [(fun _ => false : K → Bool)]
+  | .set m k _ => match A[m]? with
+    | some f => A.set m (fun q => eqv k q || f q)
+    | none => A
+  | .del m k => match A[m]? with
+    | some f => A.set m (fun q => !eqv k q && f q)
+    | none => A
+  | .setcap _ _ => A
+  | .grow _ _ => A
+  | .clone m => match A[m]? with
+    | some f => A ++ [f]
+    | none => A
+  | .clonecap m _ => match A[m]? with
+    | some f => A ++ [f]
+    | none => A
+  | .cat a b => match A[a]?, A[b]? with
+    | some f, some g => A ++ [fun q => f q || g q]
+    | _, _ => A
+  | .copy t s => match A[t]?, A[s]? with
+    | some f, some g => A.set t (fun q => f q || g q)
+    | _, _ => A
+  | .union a b => match A[a]?, A[b]? with
+    | some f, some g => A ++ [fun q => f q || g q]
+    | _, _ => A
+  | .inter a b => match A[a]?, A[b]? with
+    | some f, some g => A ++ [fun q => f q && g q]
+    | _, _ => A
+
+/-- table `t` denotes the finite map `f` -/
+def DenM (hash : K → Nat) (eqv : K → K → Bool) (t : Tbl K V) (f : K → Option V) : Prop :=
+  Inv hash eqv t ∧ ∀ q, lookupL eqv t.toList q = f q
+
+/-- table `t` denotes the finite set `f` -/
+def DenS (hash : K → Nat) (eqv : K → K → Bool) (t : Tbl K V) (f : K → Bool) : Prop :=
+  Inv hash eqv t ∧ ∀ q, (lookupL eqv t.toList q).isSome = f q
+
+theorem lookup_new (c : Nat) (q : K) : lookupL eqv (Tbl.new c : Tbl K V).toList q = none := by
+  have : (Tbl.new c : Tbl K V).toList = [] := entries_replicate_empty c
+  rw [this]; rfl
+
+theorem no_empty_of_count (slots : List (Slot K V)) (h : countEmpty slots = 0) (x : Nat) :
+    slots[x]? ≠ some .empty := by
+  induction slots generalizing x with
+  | nil => simp
+  | cons s rest ih =>
+    cases x with
+    | zero => cases s <;> simp [countEmpty] at h ⊢
+    | succ x =>
+      have : countEmpty rest = 0 := by cases s <;> simp [countEmpty] at h ⊢ <;> omega
+      simpa using ih this x
+
+/-- a successful `reinsert` had room for every entry -/
+theorem reinsert_ok_room (hk : KeyOk hash eqv) : ∀ (slots : List (Slot K V)) (acc r : Tbl K V),
+    Inv hash eqv acc → countTomb acc.slots = 0 → Distinct eqv (entries slots) →
+    (∀ k v, (k, v) ∈ entries slots → lookupL eqv acc.toList k = none) →
+    reinsert hash eqv acc slots = .ok r → countLive acc.slots + (entries slots).length ≤ acc.cap := by
+  intro slots
+  induction slots with
+  | nil =>
+    intro acc r hinv _ _ _ _
+    have := count_total acc.slots
+    simp only [entries, List.length_nil, Tbl.cap]; omega
+  | cons s rest ih =>
+    intro acc r hinv hnt hd hab hok
+    cases s with
+    | empty => simp only [reinsert, entries] at *; exact ih acc r hinv hnt hd hab hok
+    | tomb => simp only [reinsert, entries] at *; exact ih acc r hinv hnt hd hab hok
+    | live k v =>
+      simp only [entries, List.length_cons] at hd hab ⊢
+      have habk := hab k v (by simp)
+      have htot := count_total acc.slots
+      by_cases hroom : countLive acc.slots < acc.cap
+      · obtain ⟨i, hidx, hs⟩ := index_store hk acc hinv k (Or.inl hroom)
+        obtain ⟨hinv1, hcap1, hlook1, hcl1, hct1⟩ := stored_spec hk acc hinv k v i hs
+        have hempty : acc.slots[i]? = some .empty := by
+          cases hs with
+          | update k' v' h he =>
+            have := (lookup_iff hk acc hinv k v').mpr ⟨i, k', h, he⟩
+            rw [habk] at this; cases this
+          | fresh hf _ _ _ _ _ =>
+            rcases hf with h | h
+            · exact h
+            · exact absurd h (no_tomb_of_count acc.slots hnt i)
+        have hst : stored acc i k v = ⟨acc.slots.set i (.live k v), acc.elements + 1, acc.occupied + 1⟩ := by
+          simp only [stored, hempty]
+        simp only [reinsert, hidx] at hok
+        rw [← hst] at hok
+        have := ih (stored acc i k v) r hinv1 (by omega) (List.pairwise_cons.mp hd).2 (by
+          intro k2 v2 hm
+          rw [hlook1 k2]
+          have := (List.pairwise_cons.mp hd).1 (k2, v2) hm
+          simp only at this
+          rw [this]
+          simp only [Bool.false_eq_true, if_false]
+          exact hab k2 v2 (by simp [hm])) hok
+        rw [hcap1, hcl1, habk] at this
+        simp at this; omega
+      · exfalso
+        have hab' := (lookup_none_iff hk acc hinv k).mp habk
+        simp only [reinsert] at hok
+        by_cases hc0 : acc.cap = 0
+        · simp [index, hc0] at hok
+        · obtain ⟨ri, hri, hspec⟩ := index_absent (hash := hash) acc k (by omega) hab'
+          rw [hri] at hok
+          cases ri with
+          | none => cases hok
+          | some x =>
+            obtain ⟨_, _, _, _, hx⟩ := hspec
+            have hce : countEmpty acc.slots = 0 := by simp only [Tbl.cap] at hroom; omega
+            rcases hx with hx | hx
+            · exact no_empty_of_count acc.slots hce x hx
+            · exact no_tomb_of_count acc.slots hnt x hx
+
+/-- whenever `SetCapacity` returns, the invariant and the denotation are kept -/
+theorem setCapacity_ok (hk : KeyOk hash eqv) (t t' : Tbl K V) (hinv : Inv hash eqv t) (c : Nat)
+    (hok : setCapacity hash eqv t c = .ok t') :
+    Inv hash eqv t' ∧ ∀ q, lookupL eqv t'.toList q = lookupL eqv t.toList q := by
+  have hroom : countLive t.slots ≤ c := by
+    simp only [setCapacity] at hok
+    split at hok
+    · rename_i hc
+      have := count_total t.slots; simp only [Tbl.cap] at hc; omega
+    · have := reinsert_ok_room hk t.slots (Tbl.new c) t' (inv_new c) (count_replicate_empty c).2
+        (entries_distinct t.slots hinv.nodup) (fun k v _ => lookup_new c k) hok
+      have h0 : countLive (Tbl.new c : Tbl K V).slots = 0 := (count_replicate_empty c).1
+      have hc : (Tbl.new c : Tbl K V).cap = c := by simp [Tbl.new, Tbl.cap]
+      rw [h0, hc, entries_length] at this; omega
+  obtain ⟨t'', h1, hinv', _, hl', _, _⟩ := setCapacity_spec hk t hinv c hroom
+  rw [hok] at h1; injection h1 with h1; subst h1
+  exact ⟨hinv', hl'⟩
+
+/-- **one step refines the finite-map machine** -/
+theorem next_refinesM (hk : KeyOk hash eqv) (dflt : V) (objs : List (Tbl K V)) (A : List (K → Option V))
+    (h : RelG (DenM hash eqv) objs A) (op : Op K V) (hop : op.isMapOp = true) :
+    RelG (DenM hash eqv) (nextSt hash eqv dflt objs op) (astepM eqv A op) := by
+  cases op with
+  | new c => exact h.append ⟨inv_new c, fun q => lookup_new c q⟩
+  | set m k v =>
+    simp only [nextSt, mstep, astepM]
+    cases ht : objs[m]? with
+    | none => simp only [h.none ht]; exact h
+    | some t =>
+      obtain ⟨f, hf, hinv, hl⟩ := h.get ht
+      obtain ⟨t', h1, hinv', hl'⟩ := set_spec hk t hinv k v
+      simp only [hf, h1]
+      exact h.set m ⟨hinv', fun q => by rw [hl' q, hl q]⟩
+  | del m k =>
+    simp only [nextSt, mstep, astepM]
+    cases ht : objs[m]? with
+    | none => simp only [h.none ht]; exact h
+    | some t =>
+      obtain ⟨f, hf, hinv, hl⟩ := h.get ht
+      obtain ⟨t', b, h1, hinv', _, _, hl'⟩ := delete_spec hk t hinv k
+      simp only [hf, h1]
+      exact h.set m ⟨hinv', fun q => by rw [hl' q, hl q]⟩
+  | setcap m c =>
+    simp only [nextSt, mstep, astepM]
+    cases ht : objs[m]? with
+    | none => exact h
+    | some t =>
+      obtain ⟨f, hf, hinv, hl⟩ := h.get ht
+      simp only
+      cases hr : setCapacity hash eqv t c with
+      | panic => exact h
+      | ok t' =>
+        obtain ⟨hinv', hl'⟩ := setCapacity_ok hk t t' hinv c hr
+        have := h.set m (a := f) ⟨hinv', fun q => by rw [hl' q, hl q]⟩
+        rwa [list_set_self A m f hf] at this
+  | grow m n =>
+    simp only [nextSt, mstep, astepM]
+    cases ht : objs[m]? with
+    | none => exact h
+    | some t =>
+      obtain ⟨f, hf, hinv, hl⟩ := h.get ht
+      simp only
+      cases hr : setCapacity hash eqv t (t.cap + n) with
+      | panic => exact h
+      | ok t' =>
+        obtain ⟨hinv', hl'⟩ := setCapacity_ok hk t t' hinv _ hr
+        have := h.set m (a := f) ⟨hinv', fun q => by rw [hl' q, hl q]⟩
+        rwa [list_set_self A m f hf] at this
+  | clone m =>
+    simp only [nextSt, mstep, astepM]
+    cases ht : objs[m]? with
+    | none => simp only [h.none ht]; exact h
+    | some t =>
+      obtain ⟨f, hf, hden⟩ := h.get ht
+      simp only [hf]
+      exact h.append hden
+  | clonecap m c =>
+    simp only [nextSt, mstep, astepM]
+    cases ht : objs[m]? with
+    | none => simp only [h.none ht]; exact h
+    | some t =>
+      obtain ⟨f, hf, hinv, hl⟩ := h.get ht
+      obtain ⟨t', h1, hinv', hl'⟩ := copy_spec hk (Tbl.new c) t (inv_new c) hinv
+      simp only [hf, cloneCap, h1]
+      refine h.append ⟨hinv', fun q => ?_⟩
+      rw [hl' q, lookup_new c q, hl q]
+      cases f q <;> rfl
+  | cat a b =>
+    simp only [nextSt, mstep, astepM]
+    cases hta : objs[a]? with
+    | none => simp only [h.none hta]; exact h
+    | some x =>
+      obtain ⟨f, hf, hinvx, hlx⟩ := h.get hta
+      cases htb : objs[b]? with
+      | none => simp only [hf, h.none htb]; exact h
+      | some y =>
+        obtain ⟨g, hg, hinvy, hly⟩ := h.get htb
+        obtain ⟨t', h1, hinv', hl'⟩ := copy_spec hk x y hinvx hinvy
+        simp only [hf, hg, concat, h1]
+        exact h.append ⟨hinv', fun q => by simp only [hl' q, hly q, hlx q]; cases g q <;> rfl⟩
+  | copy a b =>
+    simp only [nextSt, mstep, astepM]
+    cases hta : objs[a]? with
+    | none => simp only [h.none hta]; exact h
+    | some x =>
+      obtain ⟨f, hf, hinvx, hlx⟩ := h.get hta
+      cases htb : objs[b]? with
+      | none => simp only [hf, h.none htb]; exact h
+      | some y =>
+        obtain ⟨g, hg, hinvy, hly⟩ := h.get htb
+        obtain ⟨t', h1, hinv', hl'⟩ := copy_spec hk x y hinvx hinvy
+        simp only [hf, hg, h1]
+        exact h.set a ⟨hinv', fun q => by simp only [hl' q, hly q, hlx q]; cases g q <;> rfl⟩
+  | union a b => simp [Op.isMapOp] at hop
+  | inter a b => simp [Op.isMapOp] at hop
+
+end Elk.HashMap
+
+namespace Elk.HashMap
+variable {K V : Type} {hash : K → Nat} {eqv : K → K → Bool}
+
+/-- **one step refines the finite-set machine** (every operation, union and intersection included) -/
+theorem next_refinesS (hk : KeyOk hash eqv) (dflt : V) (objs : List (Tbl K V)) (A : List (K → Bool))
+    (h : RelG (DenS hash eqv) objs A) (op : Op K V) :
+    RelG (DenS hash eqv) (nextSt hash eqv dflt objs op) (astepS eqv A op) := by
+  cases op with
+  | new c => exact h.append ⟨inv_new c, fun q => by rw [lookup_new c q]; rfl⟩
+  | set m k v =>
+    simp only [nextSt, mstep, astepS]
+    cases ht : objs[m]? with
+    | none => simp only [h.none ht]; exact h
+    | some t =>
+      obtain ⟨f, hf, hinv, hl⟩ := h.get ht
+      obtain ⟨t', h1, hinv', hl'⟩ := set_spec hk t hinv k v
+      simp only [hf, h1]
+      refine h.set m ⟨hinv', fun q => ?_⟩
+      rw [hl' q]; show _ = (eqv k q || f q); rw [← hl q]; cases eqv k q <;> simp
+  | del m k =>
+    simp only [nextSt, mstep, astepS]
+    cases ht : objs[m]? with
+    | none => simp only [h.none ht]; exact h
+    | some t =>
+      obtain ⟨f, hf, hinv, hl⟩ := h.get ht
+      obtain ⟨t', b, h1, hinv', _, _, hl'⟩ := delete_spec hk t hinv k
+      simp only [hf, h1]
+      refine h.set m ⟨hinv', fun q => ?_⟩
+      rw [hl' q]; show _ = (!eqv k q && f q); rw [← hl q]; cases eqv k q <;> simp
+  | setcap m c =>
+    simp only [nextSt, mstep, astepS]
+    cases ht : objs[m]? with
+    | none => exact h
+    | some t =>
+      obtain ⟨f, hf, hinv, hl⟩ := h.get ht
+      simp only
+      cases hr : setCapacity hash eqv t c with
+      | panic => exact h
+      | ok t' =>
+        obtain ⟨hinv', hl'⟩ := setCapacity_ok hk t t' hinv c hr
+        have := h.set m (a := f) ⟨hinv', fun q => by rw [hl' q, hl q]⟩
+        rwa [list_set_self A m f hf] at this
+  | grow m n =>
+    simp only [nextSt, mstep, astepS]
+    cases ht : objs[m]? with
+    | none => exact h
+    | some t =>
+      obtain ⟨f, hf, hinv, hl⟩ := h.get ht
+      simp only
+      cases hr : setCapacity hash eqv t (t.cap + n) with
+      | panic => exact h
+      | ok t' =>
+        obtain ⟨hinv', hl'⟩ := setCapacity_ok hk t t' hinv _ hr
+        have := h.set m (a := f) ⟨hinv', fun q => by rw [hl' q, hl q]⟩
+        rwa [list_set_self A m f hf] at this
+  | clone m =>
+    simp only [nextSt, mstep, astepS]
+    cases ht : objs[m]? with
+    | none => simp only [h.none ht]; exact h
+    | some t =>
+      obtain ⟨f, hf, hden⟩ := h.get ht
+      simp only [hf]
+      exact h.append hden
+  | clonecap m c =>
+    simp only [nextSt, mstep, astepS]
+    cases ht : objs[m]? with
+    | none => simp only [h.none ht]; exact h
+    | some t =>
+      obtain ⟨f, hf, hinv, hl⟩ := h.get ht
+      obtain ⟨t', h1, hinv', hl'⟩ := copy_spec hk (Tbl.new c) t (inv_new c) hinv
+      simp only [hf, cloneCap, h1]
+      refine h.append ⟨hinv', fun q => ?_⟩
+      rw [hl' q, lookup_new c q, ← hl q]
+      cases lookupL eqv t.toList q <;> rfl
+  | cat a b =>
+    simp only [nextSt, mstep, astepS]
+    cases hta : objs[a]? with
+    | none => simp only [h.none hta]; exact h
+    | some x =>
+      obtain ⟨f, hf, hinvx, hlx⟩ := h.get hta
+      cases htb : objs[b]? with
+      | none => simp only [hf, h.none htb]; exact h
+      | some y =>
+        obtain ⟨g, hg, hinvy, hly⟩ := h.get htb
+        obtain ⟨t', h1, hinv', hl'⟩ := copy_spec hk x y hinvx hinvy
+        simp only [hf, hg, concat, h1]
+        refine h.append ⟨hinv', fun q => ?_⟩
+        rw [hl' q]; show _ = (f q || g q); rw [← hly q, ← hlx q]
+        cases lookupL eqv y.toList q <;> cases lookupL eqv x.toList q <;> rfl
+  | copy a b =>
+    simp only [nextSt, mstep, astepS]
+    cases hta : objs[a]? with
+    | none => simp only [h.none hta]; exact h
+    | some x =>
+      obtain ⟨f, hf, hinvx, hlx⟩ := h.get hta
+      cases htb : objs[b]? with
+      | none => simp only [hf, h.none htb]; exact h
+      | some y =>
+        obtain ⟨g, hg, hinvy, hly⟩ := h.get htb
+        obtain ⟨t', h1, hinv', hl'⟩ := copy_spec hk x y hinvx hinvy
+        simp only [hf, hg, h1]
+        refine h.set a ⟨hinv', fun q => ?_⟩
+        rw [hl' q]; show _ = (f q || g q); rw [← hly q, ← hlx q]
+        cases lookupL eqv y.toList q <;> cases lookupL eqv x.toList q <;> rfl
+  | union a b =>
+    simp only [nextSt, mstep, astepS]
+    cases hta : objs[a]? with
+    | none => simp only [h.none hta]; exact h
+    | some x =>
+      obtain ⟨f, hf, hinvx, hlx⟩ := h.get hta
+      cases htb : objs[b]? with
+      | none => simp only [hf, h.none htb]; exact h
+      | some y =>
+        obtain ⟨g, hg, hinvy, hly⟩ := h.get htb
+        obtain ⟨t', h1, hinv', hl'⟩ := union_spec hk dflt x y hinvx hinvy
+        simp only [hf, hg, h1]
+        exact h.append ⟨hinv', fun q => by rw [hl' q, hlx q, hly q]⟩
+  | inter a b =>
+    simp only [nextSt, mstep, astepS]
+    cases hta : objs[a]? with
+    | none => simp only [h.none hta]; exact h
+    | some x =>
+      obtain ⟨f, hf, hinvx, hlx⟩ := h.get hta
+      cases htb : objs[b]? with
+      | none => simp only [hf, h.none htb]; exact h
+      | some y =>
+        obtain ⟨g, hg, hinvy, hly⟩ := h.get htb
+        obtain ⟨t', h1, hinv', hl'⟩ := inter_spec hk dflt x y hinvx hinvy
+        simp only [hf, hg, h1]
+        exact h.append ⟨hinv', fun q => by rw [hl' q, hlx q, hly q]⟩
+
+end Elk.HashMap
